@@ -254,4 +254,29 @@ theorem lastPosFrom_spec (cs : List (Nat × Int)) (last : Option (Nat × Int)) :
           · exact hnone d hd
         · rw [hstep, hres]; simp [hp]
 
+/-- The executable check implies the `Prop` the theorems assume. -/
+theorem softmaxFactsB_sound (cs : List (Nat × Option Int × Int)) (one tol : Int)
+    (h : softmaxFactsB cs one tol = true) : SoftmaxFacts cs one tol := by
+  simp only [softmaxFactsB, Bool.and_eq_true, List.all_eq_true, decide_eq_true_eq,
+    Bool.or_eq_true, beq_iff_eq] at h
+  obtain ⟨⟨⟨⟨h1, h2⟩, h3⟩, h4⟩, h5⟩ := h
+  refine ⟨h1, ?_, ⟨h3, h4⟩, ?_⟩
+  · intro c hc hn
+    rcases h2 c hc with hs | hz
+    · rw [hn] at hs; simp at hs
+    · exact hz
+  · intro c hc d hd a b ha hb hab
+    have := h5 c hc d hd
+    rw [ha, hb] at this
+    simp only [decide_eq_true_eq] at this
+    exact this hab
+
+/-- With exact addition the running sum is the sum. -/
+theorem runSum_exact (cum : Int) (l : List (Nat × Int)) :
+    runSum (· + ·) cum l = cum + sumProbs l := by
+  induction l generalizing cum with
+  | nil => simp [runSum, sumProbs]
+  | cons c cs ih =>
+    rw [runSum_cons, ih]; simp only [sumProbs]; omega
+
 end RtenVerif.Sampler
